@@ -206,6 +206,8 @@ def emit_expr(o, names, e):
         if e.get("bit"):
             return f[e["hi"]]
         return f[e["hi"]:e["lo"]]
+    if k == "dyn":
+        return getattr(o, e["name"])()
     if k in ("in", "notin"):
         lhs = emit_expr(o, names, e["e"])
         items = []
@@ -240,6 +242,8 @@ def emit_stmts(o, names, stmts):
             if s.get("else") is not None:
                 with vsc.else_then:
                     emit_stmts(o, names, s["else"])
+        elif k == "dyncall":
+            getattr(o, s["name"])()
         elif k == "solve_order":
             with vsc.raw_mode():
                 bl = [getattr(o, names[i]) for i in s["before"]]
